@@ -5,6 +5,7 @@ from ..framework import rule
 from ..astutil import dotted, call_name, call_recv, norm, walk_local, unparse
 from .. import q
 from .common import assigned_value, kw, arg
+from . import c18   # C18.R4 (IO registry is keyed and searched per model) is listed for C19 too
 
 META = {
     "explanation": (
